@@ -2,9 +2,10 @@
    bool, option, list, prod, unit, sumbool map to OCaml's; Z, positive, nat
    stay inductive. No Extract Constant. Run from /verif/ocaml (see build.sh). *)
 From Coq Require Import Extraction ExtrOcamlBasic.
-From MPB Require Import Base BarState F64 Percent Filler Decor.
+From MPB Require Import Base BarState F64 Percent Filler Decor Container.
 Extraction Language OCaml.
 Extraction "mpb_model.ml"
   Z.add Z.mul Z.sub Z.quotrem Z.of_nat Z.to_nat Z.compare Z.opp
   wrap64 binit bapply bstep bev_step brender bexit obs completed
-  cells fill_bar fill_spinner draw_row canon segs_width decor_plain.
+  cells fill_bar fill_spinner draw_row canon segs_width decor_plain
+  init_cst step first_reject.
